@@ -118,7 +118,7 @@ func init() {
 		ID:    "C11",
 		Level: "model_checking",
 		Rule: "explicit-state breadth-first search over histories of the 16 operations {validate, file-name(f), package(f), name-then-package(f)} (f in the five formats) applied to ONE parsed configuration; a state is the canonical dump (pointer aliasing numbered, unexported fields included) of the configuration value graph, every package-level variable of the nfpm packages (woven build) and the relevant environment; " +
-			"successor = replay of the history on a freshly parsed configuration + one operation; every transition is judged: result (package bytes / file name) equal to the fresh-parse baseline of that operation, and Config.Get(f) for all f unchanged by the operation; states are matched by hash, depth <=4 (thorough 6); " +
+			"successor = replay of the history on a freshly parsed configuration + one operation; every transition is judged: result (package bytes / file name) equal to the fresh-parse baseline of that operation, and Config.Get(f) for all f unchanged by the operation; states are matched by hash, depth <=4 (thorough 7); " +
 			"in addition all 120 orders of the five packagings and (thorough) every sequence of <=3 operations are executed without state matching as a cross-check; non-trivial = the configuration packages for at least one format; distinct = distinct (configuration, reached state)",
 		Assumptions: []string{
 			"operations are deterministic functions of the dumped state (package mtime fixed; no clock reads: see C07's clock seam), so equal dumps have equal futures",
@@ -127,7 +127,7 @@ func init() {
 		Setup:  setupTree,
 		Decode: decodeInto[C11Case],
 		Bounds: func(env *engine.Env) map[string]any {
-			return map[string]any{"operations": c11Ops(), "depth": map[string]int{"quick": 4, "thorough": 6}}
+			return map[string]any{"operations": c11Ops(), "depth": map[string]int{"quick": 4, "thorough": 7}}
 		},
 		Enumerate: func(env *engine.Env, yield func(any) bool) {
 			if env.Data["tree"] == nil {
@@ -136,7 +136,7 @@ func init() {
 			n := len(c11Configs(env))
 			depth := 4
 			if env.Thorough() {
-				depth = 6
+				depth = 7
 			}
 			for i := 0; i < n; i++ {
 				if !yield(C11Case{Part: "bfs", Config: i, Depth: depth}) {
